@@ -2,6 +2,7 @@
     Property theorems only. (run-time wrappers: Proofs/CheckerFrame.v; member selection:
     Proofs/ElabSelect.v) *)
 From ICV Require Import Base Bind Checker CheckerSpec CheckerFrame Elab ElabSelect.
+From ICV Require CheckerCase CheckerOracle CheckerAfter.
 Open Scope string_scope.
 Open Scope list_scope.
 
@@ -89,3 +90,11 @@ Example C03_constructor_example :
             (fun id st => match id with 2 => Nat.leb 1 st | _ => true end) 1
   = ([EInit 1 0; EInit 0 0; EInv 1 1; EInv 2 1], None).
 Proof. reflexivity. Qed.
+
+(** Every invariant that applies after an operation is evaluated after every return of its body, each once and in the
+    order of the list, whatever the parameters of its condition ([spec_C16_after], the executable statement that the
+    check evaluates on the implementation's observation; for the model and every case - Proofs/CheckerAfter.v). *)
+Theorem C03_every_invariant_after_a_return (c : CheckerCase.ccase) :
+  CheckerOracle.spec_C16_after c (fst (CheckerCase.run_case c)) (snd (CheckerCase.run_case c)) = true.
+Proof. exact (CheckerAfter.after_sound c). Qed.
+Print Assumptions C03_every_invariant_after_a_return.
